@@ -182,6 +182,8 @@ def run(tier, seed, t0, only=None):
     nb = 25 if tier == 'quick' else 400
     for d in ('g44', 'g333', 's', 'n', 'm', 'g88', 'b3'):
         insts += [c09.instance('boxes', d, seed * 1000 + i) for i in range(nb)]
+    for d in ('g333', 's', 'n', 'm'):
+        insts += [c09.instance('partial', d, seed * 1000 + i) for i in range(nb)]
     for d in ('g44', 's', 'n'):
         for _ in range(nb):
             m = rnd.getrandbits(16) or 1
